@@ -431,12 +431,13 @@ theorem rank_ret_other {s : Sys} (I : Inv s) (hns : ∀ rest, s.drv.gpuIn ≠ An
     have hone : s.drv.one = true := mp.one
     have h0 := t2a_curRem hc mp.pos ct
     obtain ⟨c1, c2, c3, c4, c5⟩ := ct
+    obtain ⟨d0, l0, _, _, hrel, _, _, _⟩ := c4_rel I hone
     by_cases he : s.drv.toCP = []
     · have hd : CP.dec s.drv.mig = 0 := by rw [hmig, c4_dec_succ, he]; rfl
       have hr0 : s.drv.restart = 0 := by simpa using c4
       have htm : s.drv.toMMU = none := (mi.fresh (by simp)).1
       have hal : 0 < r.acc.length := List.length_pos_iff.2 rq.accNe
-      rw [c4_ret_zero s.drv [] r nf hin hd hc hr0 rq.accLt rq.accIn htm]
+      rw [c4_ret_zero s.drv [] r _ nf hin hone hrel hd hc hr0 rq.accLt rq.accIn htm]
       refine t2a_w1 (t2a_decR s _ True ?_ ?_)
       · rfl
       · rw [h0, t2a_curRem (p := .restart) (n := r.acc.length) (r := r) ?_ hal ?_]
@@ -447,7 +448,7 @@ theorem rank_ret_other {s : Sys} (I : Inv s) (hns : ∀ rest, s.drv.gpuIn ≠ An
     · have hpos : 0 < s.drv.toCP.length := List.length_pos_iff.mpr he
       have hdec : CP.dec s.drv.mig = s.drv.toCP.length := by rw [hmig, c4_dec_succ]
       have hd : CP.dec s.drv.mig ≠ 0 := by rw [hdec]; omega
-      rw [c4_ret_ne s.drv [] nf hin hd]
+      rw [c4_ret_ne s.drv [] _ nf hin hone hrel hd]
       refine t2a_w1 (t2a_decR s _ True ?_ ?_)
       · rfl
       · rw [h0, t2a_curRem (p := .mig) (n := CP.dec s.drv.mig) (r := r) ?_ (by omega) ?_]
